@@ -110,17 +110,27 @@ func GenRandom(out string, seed int64, n, maxn int) error {
 		if len(pts) < 3 {
 			pts = [][]int{{0, 0}, {7, 1}, {2, 9}}
 		}
-		c := Case{Id: i, Tag: "random-" + dist, Pts: pts, J: []int{0, 0}}
+		c := Case{Id: i, Tag: "random-" + dist, Pts: pts, J: []int{0, 0}, Mul: 1}
+		// scales: half of them within 2^-14..2^6, where absolute constants of an
+		// implementation meet the size of these sets, the rest up to 2^+-40
+		scale := func(wide int) int {
+			if r.Intn(2) == 0 {
+				return r.Intn(21) - 14
+			}
+			return r.Intn(2*wide+1) - wide
+		}
 		switch r.Intn(5) {
-		case 0: // scaled copy
-			c.K = r.Intn(81) - 40
+		case 0, 3: // scaled copy (odd multiplier: scales between the powers of two)
+			c.K = scale(40)
+			c.Mul = 1 + 2*r.Intn(32)
 			c.Tag += "-scaled"
 		case 1: // offset copy
 			c.M = []int{0, 8, 16, 30, 40}[r.Intn(5)]
 			c.J = []int{r.Intn(2001) - 1000, r.Intn(2001) - 1000}
 			c.Tag += "-offset"
 		case 2: // both
-			c.K = r.Intn(61) - 30
+			c.K = scale(30)
+			c.Mul = 1 + 2*r.Intn(16)
 			c.M = []int{4, 12, 24, 36}[r.Intn(4)]
 			c.J = []int{r.Intn(2001) - 1000, r.Intn(2001) - 1000}
 			c.Tag += "-scaled-offset"
